@@ -1,5 +1,6 @@
 pub mod byzhist;
 pub mod c05;
+pub mod c08;
 pub mod c09;
 pub mod c10;
 pub mod c11;
@@ -18,6 +19,7 @@ pub fn all_arms() -> Vec<Box<dyn Arm>> {
     v.push(Box::new(c05::C05));
     v.push(Box::new(byzhist::ByzHist { id: "C06" }));
     v.push(Box::new(byzhist::ByzHist { id: "C07" }));
+    v.push(Box::new(c08::C08));
     v.push(Box::new(c09::C09));
     v.push(Box::new(c10::C10));
     v.push(Box::new(c11::C11));
